@@ -258,6 +258,7 @@ def run_part(ctx):
     if not load_flags():
         ctx.broken.append("legacy: the variant flags are missing from coq/GenSerLegacy.v")
     ctx.notes["legacy_variant"] = dict(FLAGS)
+    base.VARIANT.update(FLAGS)     # the differential oracle of props/C04.py uses the same flags
     model, ok_m, mlog = core.build_model(FAMILY)
     if not ok_m:
         ctx.broken.append("legacy: model extraction/build failed: " + mlog[-500:])
